@@ -35,7 +35,7 @@ MANIFEST = dict(
         "of double/unsigned/int range, comments) — class histograms, outcomes and the library check that fired are in the evidence."),
   note=TRUST + "boost::spirit's and iostream's own code is runtime evidence only (sanitizers + watchdog + exact comparison with the model over the "
        "generated files); 'never hangs' is a theorem about the PEG model (parser_total), for the real parsers it is the watchdog; "
-       "numeric values are compared for tokens whose digits fit spirit's uint64 accumulator (<= 18 digits, any exponent); longer tokens and, "
+       "numeric values are compared for tokens whose digits fit spirit's uint64 accumulator (<= 17 digits, any exponent); longer tokens and, "
        "for the float scalar reader, anything but plain integers of <= 7 digits run for memory safety + oracle only; "
        "the number formatting model (fmtE/fmtG) and the byte-level round trip parse(print d) are tied by exact correspondence, not proved — the "
        "round-trip theorems are at token level with the separator outside the characters of a number as an explicit assumption; "
@@ -68,10 +68,10 @@ EXPONENT_RANGE_REPAIRED = False      # set by the probe `exponent-out-of-range` 
 def mode_of(data, float_scalar=False):
     """X: values are compared exactly; S: memory safety + oracle only.
     The model follows boost 1.83's real_impl (uint64 accumulator, pow10 table, every rounding), so any
-    token whose integer+fraction digits fit the accumulator (<= 18 digits) is compared, with any exponent.
+    token whose integer+fraction digits fit the accumulator (<= 17 digits) is compared, with any exponent.
     The float scalar reader (uint32 accumulator, float arithmetic) is compared for plain integers of
     at most 7 digits only."""
-    lim = 7 if float_scalar else 18
+    lim = 7 if float_scalar else 17
     for m in DIGRUN.finditer(data):
         if sum(1 for c in m.group(0) if 48 <= c <= 57) > lim:
             return "S"
@@ -92,7 +92,9 @@ def exp_out_of_range(data, float_scalar=False):
             try: e = int(m.group(3))
             except ValueError: continue
             if abs(e) > 2147483648: continue
-            k = e - len(m.group(2) or b"")
+            ni, nf = len(m.group(1) or b""), len(m.group(2) or b"")
+            acc = 7 if float_scalar else 17          # digits spirit accumulates; later integer digits count as exponent
+            k = e - min(nf, max(0, acc - ni)) + max(0, ni - acc)
             if k > hi or k < lo:
                 return True
         # same effect without an exponent part: digits beyond the accumulator count as a positive exponent
@@ -602,7 +604,7 @@ def run(ctx):
                     "(SparseData.cpp, Csv.cpp, Csv.h, SparseData.h are modelled, not translated)",
                     "boost::spirit 1.83 (parsing, value conversion), libstdc++ iostream number formatting: exercised under ASan/UBSan and "
                     "compared byte for byte / bit for bit with the model, not proved about"]
-    ctx.assumptions += ["values of numeric tokens are compared when their integer+fraction digits fit spirit's uint64 accumulator (<= 18 digits; any exponent); "
+    ctx.assumptions += ["values of numeric tokens are compared when their integer+fraction digits fit spirit's uint64 accumulator (<= 17 digits; any exponent); "
                         "longer tokens run for memory safety and the oracle only",
                         "a single allocation above 1 MiB inside an importer is answered by std::bad_alloc (harness operator new)",
                         "exportSparseData(sortLabels=true) uses std::sort, which is not stable: exercised for at most 13 elements, where libstdc++ sorts by insertion",
